@@ -120,6 +120,9 @@ const (
 var c03PumpNames = []string{"transfer", "filter", "relay-in", "relay-out", "tunnel-in", "tunnel-out"}
 
 type c03PumpRig struct {
+	// backlog: with concurrent reads, the reader starts only when the queue is full (the pump
+	// waits in addBuffer) or the pump has finished: more reads pending than the queue holds
+	backlog   bool
 	p         *trzsz.VerifPump
 	filterSrc *c03Src
 	filterEvs int64
@@ -196,6 +199,9 @@ func (g *c03PumpRig) run(kind int, f1, f2, f3 bool, evs []c03Ev, ops []c03Op, co
 		}
 		src.ch <- c03Ev{nil, true}
 		if concurrent {
+			if g.backlog {
+				c03Spin(func() bool { return src.atEOF.Load() || real.b.QueueLen() >= real.b.QueueCap() })
+			}
 			readAll(c03Delivered(evs, true), true)
 		}
 		ok = c03Spin(func() bool { return src.atEOF.Load() })
@@ -223,8 +229,14 @@ func (g *c03PumpRig) run(kind int, f1, f2, f3 bool, evs []c03Ev, ops []c03Op, co
 		}
 		g.filterEvs += int64(len(evs))
 		want := g.filterEvs + 1
+		if concurrent && g.backlog {
+			c03Spin(func() bool { return g.filterSrc.asked.Load() == want || real.b.QueueLen() >= real.b.QueueCap() })
+			readAll(c03Delivered(evs, false), true)
+		}
 		ok = c03Spin(func() bool { return g.filterSrc.asked.Load() == want })
-		readAll(nil, false)
+		if !(concurrent && g.backlog) {
+			readAll(nil, false)
+		}
 	default:
 		src := c03NewSrc(len(evs)+2, true)
 		total := 8
@@ -311,7 +323,9 @@ func c03GenPump(c *ctx) {
 			name, flagsStr(f1, f2, f3), c03EvsStr(evs), c03OpsStr(ops))
 		c.count("pump:" + name + ":" + tag)
 		flat := c03Delivered(evs, kind != c03PFilter)
-		key := func(what string) string { return c03Key("pump-"+name+"-"+what, flat, c03OpsStr(ops)+":"+c03EvsStr(evs)) }
+		key := func(what string) string {
+			return c03Key("pump-"+name+"-"+what, flat, c03OpsStr(ops)+":"+c03EvsStr(evs))
+		}
 		detail := fmt.Sprintf("pump=%s flags=%s script=%s delivered=%s ops=%s results=%s popped=%s forwarded=%s",
 			name, flagsStr(f1, f2, f3), c03EvsStr(evs), hx(flat), c03OpsStr(ops), c03ResStr(res), c03ChunksStr(pops), c03ChunksStr(fwd))
 		if !ok {
@@ -591,5 +605,97 @@ func c03GenPump(c *ctx) {
 			rest = rest[n:]
 		}
 		one(kind, kind >= c03PRelayIn, false, false, evs, ops, false, "long")
+	}
+	// ---- backlog: MORE reads pending than the queue between pump and reader holds.  The pump
+	// hands over one byte per read, the reader starts only when the queue is full (the pump
+	// then waits inside addBuffer) -- nothing may be lost, however far the reader lags ----
+	{
+		capQ := trzsz.VerifNewBuffer().QueueCap()
+		c.count(fmt.Sprintf("backlog:queue-capacity=%d", capQ))
+		build := func(n int) ([]byte, []c03Op) {
+			var stream []byte
+			var ops []c03Op
+			for i := 0; len(stream) < n; i++ {
+				stream = append(stream, []byte(fmt.Sprintf("#NUM:%d\n#DATA:8\n", i))...)
+				ops = append(ops, c03Op{'L', 0}, c03Op{'L', 0})
+				stream = append(stream, '\n', '\r', '#', ':', byte(i), 3, '\r', '\n')
+				ops = append(ops, c03Op{'B', 8})
+				stream = append(stream, []byte("#SUCC:ab\r\ncd\r\n\r\nef\n")...)
+				ops = append(ops, c03Op{'J', 0})
+			}
+			return stream, ops
+		}
+		oneByte := func(stream []byte) []c03Ev {
+			evs := make([]c03Ev, len(stream))
+			for i := range stream {
+				evs[i] = c03Ev{stream[i : i+1], false}
+			}
+			return evs
+		}
+		rig.backlog = true
+		for _, extra := range []int{1, 5000} {
+			stream, ops := build(capQ + extra)
+			evs := oneByte(stream)
+			// (the extracted pump model is quadratic in the number of chunks: three cases in
+			// the quick tier, all six in the thorough one)
+			if extra == 1 || c.thorough() {
+				one(c03PTransfer, false, false, false, evs, ops, true, "backlog")
+				one(c03PFilter, false, false, false, evs, ops, true, "backlog")
+			}
+			if extra != 1 || c.thorough() {
+				one(c03PTransfer, true, false, true, evs, ops, true, "backlog")
+			}
+		}
+		rig.backlog = false
+		// the same directly on addBuffer: a producer goroutine, a reader that comes late and
+		// pops everything; compared with the interleaving model of the bounded queue
+		for _, extra := range []int{1, 50, 5000} {
+			n := capQ + extra
+			b := trzsz.VerifNewBuffer()
+			var done atomic.Bool
+			go func() {
+				for i := 0; i < n; i++ {
+					b.AddBuffer([]byte{byte(i % 251)})
+				}
+				done.Store(true)
+			}()
+			c03Spin(func() bool { return done.Load() || b.QueueLen() >= capQ })
+			var got []byte
+			cnt := 0
+			deadline := time.Now().Add(20 * time.Second)
+			for time.Now().Before(deadline) {
+				if p := b.PopBuffer(); p != nil {
+					got = append(got, p...)
+					cnt++
+					continue
+				}
+				if done.Load() {
+					p := b.PopBuffer()
+					if p == nil {
+						break
+					}
+					got = append(got, p...)
+					cnt++
+				} else {
+					runtime.Gosched()
+				}
+			}
+			if extra <= 50 || c.thorough() { // the extracted interleaving model is quadratic in n
+				c.emit(true, "queue_late", fmt.Sprintf("%d,0,0,%d:%s", cnt, n-cnt, hx(got)), fmt.Sprint(n))
+			}
+			c.count("backlog:direct")
+			want := make([]byte, n)
+			for i := range want {
+				want[i] = byte(i % 251)
+			}
+			if cnt != n || !bytes.Equal(got, want) {
+				first := 0
+				for first < len(got) && first < n && got[first] == want[first] {
+					first++
+				}
+				c.violate(fmt.Sprintf("queue-lost-chunks:%d", n), "chunks handed to addBuffer while the reader lagged behind never reached the reader",
+					fmt.Sprintf("producer: %d one-byte chunks (byte i mod 251) through addBuffer; reader started when %d were queued; popped %d chunks; first difference at chunk %d", n, capQ, cnt, first))
+			}
+		}
 	}
 }
